@@ -313,6 +313,8 @@ struct Hist {
     marks: Vec<(u64, String)>,
     /// Lane value history (step, value) / map history is derived from `emitted`.
     lane_values: Vec<(u64, i32)>,
+    /// Every state the remote map lane held: (step, map).
+    lane_maps: Vec<(u64, BTreeMap<i32, i32>)>,
 }
 
 type SharedHist = Rc<RefCell<Hist>>;
@@ -623,6 +625,7 @@ async fn remote_lane(
     let addr = || RelativeAddress::new("/remote", "lane");
     let mut linked = false;
     hist.borrow_mut().lane_values.push((0, 0));
+    hist.borrow_mut().lane_maps.push((0, BTreeMap::new()));
 
     async fn send(out: &mut Option<ByteWriter>, msg: ResponseMessage<&str, &[u8], &[u8]>) -> bool {
         let mut enc = RawResponseMessageEncoder;
@@ -667,6 +670,7 @@ async fn remote_lane(
                 }
                 RemoteOp::ExtUpdate { k, v, .. } => {
                     map.insert(k, v);
+                    hist.borrow_mut().lane_maps.push((now_step(), map.clone()));
                     if linked {
                         let body = format!("@update(key:{}) {v}", wire_key(k));
                         if send(&mut out, ResponseMessage::event(origin, addr(), body.as_bytes())).await {
@@ -675,7 +679,9 @@ async fn remote_lane(
                     }
                 }
                 RemoteOp::ExtRemove { k, .. } => {
-                    if map.remove(&k).is_some() && linked {
+                    let removed = map.remove(&k).is_some();
+                    hist.borrow_mut().lane_maps.push((now_step(), map.clone()));
+                    if removed && linked {
                         let body = format!("@remove(key:{})", wire_key(k));
                         if send(&mut out, ResponseMessage::event(origin, addr(), body.as_bytes())).await {
                             hist.borrow_mut().emitted.push((now_step(), body, "ext"));
@@ -774,6 +780,7 @@ async fn remote_lane(
                             }
                             _ => {}
                         }
+                        hist.borrow_mut().lane_maps.push((now_step(), map.clone()));
                     } else if let Ok(v) = text.trim().parse::<i32>() {
                         value = v;
                         hist.borrow_mut().lane_values.push((now_step(), v));
@@ -1193,6 +1200,28 @@ fn check(rec: &Record) -> Vec<Violation> {
                 }
             }
         } else if healthy && remote_unlinked.is_none() && c.sync && sc.lane_has_state && notes.iter().any(|x| matches!(x.2, Note::Synced)) {
+            // Map, at synced: the replica (fold of everything received up to the first synced) is a state the lane held
+            // at some moment up to then (the runtime may lag the lane, it may not hand over a state that never existed).
+            if let Some(sy) = notes.iter().find(|x| matches!(x.2, Note::Synced)).map(|x| x.0) {
+                let mut at_sync: BTreeMap<i32, i32> = BTreeMap::new();
+                for x in notes.iter().filter(|x| x.0 <= sy) {
+                    match &x.2 {
+                        Note::Map(MapEv::Update(k, v)) => {
+                            at_sync.insert(*k, *v);
+                        }
+                        Note::Map(MapEv::Remove(k)) => {
+                            at_sync.remove(k);
+                        }
+                        Note::Map(MapEv::Clear) => at_sync.clear(),
+                        _ => {}
+                    }
+                }
+                let bad_frames = sc.ignore_bad_frames || sc.early_event;
+                if !bad_frames && !h.lane_maps.iter().any(|(s, m)| *s <= sy && *m == at_sync) {
+                    let first = attached.map(|a| h.attached.iter().all(|(s, _)| *s >= a)).unwrap_or(false);
+                    out.push(Violation::new("C07", "C07.synced_state", if first { "map_never_held:first_consumer" } else { "map_never_held:late_joiner" }, format!("consumer {}: at synced (step {sy}) it holds {:?}, which the lane never held up to then (lane states: {:?})", c.id, at_sync, h.lane_maps.iter().filter(|(s, _)| *s <= sy).map(|(_, m)| m.clone()).collect::<Vec<_>>())));
+                }
+            }
             // Map: the replica (fold of everything received) equals the lane map at quiescence.
             let qs = q.unwrap();
             let mut rep: BTreeMap<i32, i32> = BTreeMap::new();
